@@ -1,6 +1,7 @@
 import SeqVerif.Model.WritePathInv
 import SeqVerif.Model.WPIndexLemmas
 import SeqVerif.Model.WPPlain
+import SeqVerif.Model.FileWriterProofs
 import SeqVerif.Extracted.C01
 /-!
 # C01 - acknowledged bulks survive any crash/restart history, intact and uncorrupted
@@ -53,6 +54,31 @@ theorem c01_unacked_atomic (h : List Ev) (hwf : ∀ e ∈ h, e.WF) :
       | cons x bs ih => intro off; obtain ⟨d, m⟩ := x; simpa [entriesOf, stamped] using ih _
     exact this _ _
 
+/-- **C01 (the replay only ever allocates what the writer held in memory).**  After any history and a crash at any
+byte of a bulk, every length the replay loop computes from the meta file (`make([]byte, FullLen)`) is the size of a
+meta block of a bulk attempted in that history - the torn tail contributes the size of the block that was being
+written.  So a reachable meta file never contains an invented length: the machine-dependent allocation sizes that the
+`replay` / `wp.run` channels leave out (64 MiB .. 2^48, met only in deliberately corrupted files) cannot hide a
+start-up failure reachable by crashes. -/
+theorem c01_replay_allocations_reachable (h : List Ev) (hwf : ∀ e ∈ h, e.WF) (d m : Blk) (hd : d.WF) (hm : m.WF)
+    (pt : CrashPt) :
+    ∀ l ∈ replayLens (crashDisk (run true init h) (enc d) (enc m) pt).2,
+      ∃ x ∈ attemptedOf (h ++ [.tornBulk d m pt]), l = (enc x.2).length := by
+  have hinv := run_fixed h init [] inv_init hwf
+  simp only [List.nil_append] at hinv
+  obtain ⟨bs', b, k, hwf', hb, hk, hlen, hform, hsub⟩ := crashDisk_meta_form _ _ d m pt hinv hd hm
+  intro l hl
+  rw [hform, replayLens] at hl
+  have hmem : ∀ x ∈ bs', x ∈ attemptedOf (h ++ [.tornBulk d m pt]) := by
+    intro x hx
+    rw [attemptedOf_append]
+    rcases hsub x hx with hx | hx
+    · exact List.mem_append_left _ (completeOf_sub_attemptedOf h x hx)
+    · subst hx; simp [attemptedOf]
+  rcases lensGo_stamped bs' hwf' b hb k hk 0 _ l hl with ⟨x, hx, hxl⟩ | hl
+  · exact ⟨x, hmem x hx, hxl⟩
+  · exact ⟨(d, m), by rw [attemptedOf_append]; simp [attemptedOf], by rw [hl, hlen]⟩
+
 /-- **C01 (document level: fetch by ID and search by token).**  `buildIndex` is what the index worker derives from
 the blocks it is handed (DocBlocks, DocsPositions with first-wins, token postings), `fetch` the active fraction's
 fetch path, for any decompression `cd` that does not look at the ext fields.  After any history, if the documents of
@@ -68,6 +94,24 @@ theorem c01_docs_served (cd : IdxCodec) (hcd : cd.ExtFree) (h : List Ev) (hwf : 
   have hinv := run_fixed h init [] inv_init hwf
   simp only [List.nil_append] at hinv
   exact inv_docs_served cd hcd _ _ [] [] hinv hnd d m (ackedOf_sub_completeOf h _ hb) ds hdocs hmeta hsz
+
+/-- **C01 (several index workers).**  With `k` index workers the tasks are numbered in `DocBlocks` in the order the
+workers reach `DocBlocks.Append`, i.e. the index is built from some permutation of the blocks handed over; each
+worker's positions use the number its own block got, and with distinct IDs `SetMultiple` never rejects anything, so
+the quiescent index is `buildIndex` of that permutation (this last step - workers only interfere through the block
+numbering - is the assumption the `index.k` channel validates on the real code with 4 workers).  The theorem: for
+**every** permutation of the blocks, fetch by ID and search by token serve every document of every acknowledged bulk
+exactly as with one worker. -/
+theorem c01_docs_served_any_worker_order (cd : IdxCodec) (hcd : cd.ExtFree) (h : List Ev) (hwf : ∀ e ∈ h, e.WF)
+    (hnd : (bulkIDs cd (completeOf h)).Nodup) (es : List Entry) (hperm : es.Perm (run true init h).idx)
+    (d m : Blk) (hb : (d, m) ∈ ackedOf h) (ds : List LDoc)
+    (hdocs : cd.docsRaw (enc d) = some (rawDocs ds)) (hmeta : cd.metaDocs (enc m) = metasOf ds)
+    (hsz : ∀ x ∈ ds, 0 < x.body.length ∧ x.body.length < 256 ^ 4) :
+    ∀ x ∈ ds, fetch cd (run true init h).docs (buildIndex cd es) x.id = some x.body ∧
+      ∀ t ∈ x.tokens, x.id ∈ search (buildIndex cd es) t := by
+  have hinv := run_fixed h init [] inv_init hwf
+  simp only [List.nil_append] at hinv
+  exact inv_docs_served_perm cd hcd _ _ [] [] hinv hnd es hperm d m (ackedOf_sub_completeOf h _ hb) ds hdocs hmeta hsz
 
 /-- **C01 (a restart is invisible).**  Killing the store between two bulks and starting it again, anywhere in a
 history, gives exactly the store that never went down: same files, same writer offsets, and the indexer is handed the
@@ -174,6 +218,83 @@ theorem c01_serialised_pair (a b : Blk × Blk) (ha : a.1.WF ∧ a.2.WF) (hb : b.
 theorem c01_witnesses_repaired :
     present (run true init orphanHistory) wd2 wm2 = true ∧ present (run true init tornMetaHistory) wd2 wm2 = true := by
   decide
+
+/-! ## `frac.FileWriter`: group commit (Model/FileWriter.lean - a labelled transition system with one label per
+atomic step of writers and of `syncLoop`; `SV.FWr.exec` accepts exactly its paths; the `fw.trace` channel replays
+logged traces of the real FileWriter through it) -/
+
+/-- **C01 (a returned Write was fsynced).**  On every path of the system, i.e. for all numbers of writers and all
+interleavings of their steps with the sync loop: when `Write` of the request that reserved `off` returns the result
+`ok`, the trace before that point contains a successful `WriteAt` of `off`, after it the begin of an fsync, and after
+that the end of that fsync with the very result `ok` that is returned.  For `ok = true`: the data was covered by an
+fsync that started after its `WriteAt` completed; for `ok = false`: a writer is told about the failure of the fsync
+that covered it. -/
+theorem c01_filewriter_durable (start : Nat) (pre post : List FWr.Lbl) (off : Nat) (ok : Bool)
+    (h : (FWr.exec (FWr.init start) (pre ++ .ret off ok :: post)).isSome) :
+    ∃ tw sb se, tw < sb ∧ sb < se ∧ se < pre.length ∧ pre[tw]? = some (.written off true) ∧
+      pre[sb]? = some .syncBegin ∧ pre[se]? = some (.syncEnd ok) := by
+  rw [FWr.exec_append] at h
+  cases h1 : FWr.exec (FWr.init start) pre with
+  | none => simp [h1] at h
+  | some s1 =>
+    simp only [h1, Option.bind_some, FWr.exec] at h
+    cases h2 : FWr.step s1 (.ret off ok) with
+    | none => simp [h2] at h
+    | some s2 =>
+      have hinv : FWr.Inv pre s1 := by simpa using FWr.exec_inv pre [] _ _ (FWr.inv_init start) h1
+      simp only [FWr.step] at h2
+      split at h2
+      · rename_i hcan
+        simp only [FWr.can, List.any_eq_true, Bool.and_eq_true, decide_eq_true_eq] at hcan
+        obtain ⟨w, hw, hoff, hsome⟩ := hcan
+        cases hpc : w.pc <;> simp [FWr.fRet, hpc] at hsome
+        rename_i ok' sb se
+        subst hsome
+        obtain ⟨tw, a, b, c, d, e⟩ := hinv.core.D w hw ok' sb se (.inl hpc)
+        exact ⟨tw, sb, se, a, b, FWr.lt_of_get e, by rw [← hoff]; exact c, d, e⟩
+      · cases h2
+
+/-- **C01 (offsets).**  On every path the ranges handed out by `fs.offset.Add`, in the order they were reserved, are
+non-empty, disjoint and contiguous from the initial offset to the current one. -/
+theorem c01_filewriter_offsets (start : Nat) (tr : List FWr.Lbl) (st : FWr.St) (h : FWr.exec (FWr.init start) tr = some st) :
+    FWr.Tiled start st.ws st.offset :=
+  FWr.exec_tiled tr start (FWr.init start) st rfl h
+
+/-- **C01 (an fsync result reaches every writer of its batch).**  When the fsync of a batch ends with result `ok`
+(in particular with an error), every request taken into that batch is blocked on its result channel and its result
+becomes `ok`; together with `c01_filewriter_durable` (a returned result is the result of the covering fsync) no
+writer of a failed batch can return success. -/
+theorem c01_filewriter_result_reaches_batch (st st' : FWr.St) (ok : Bool) (batch : List (Nat × Nat)) (sb : Nat)
+    (hsync : st.syncer = FWr.SPc.syncing batch sb) (h : FWr.step st (.syncEnd ok) = some st') :
+    (∀ w ∈ st.ws, w.off ∈ batch.map (·.1) → w.pc = FWr.WPc.waiting) ∧
+    (∀ w' ∈ st'.ws, w'.off ∈ batch.map (·.1) → w'.pc = FWr.WPc.done ok sb st.now) ∧ st'.syncer = FWr.SPc.idle := by
+  simp only [FWr.step, hsync] at h
+  split at h
+  · rename_i hall
+    cases h
+    refine ⟨?_, ?_, rfl⟩
+    · intro w hw hm
+      have := List.all_eq_true.mp hall w hw
+      simpa [hm] using this
+    · intro w' hw' hm
+      obtain ⟨w, hw, rfl⟩ := List.mem_map.mp hw'
+      by_cases hb : w.off ∈ batch.map (·.1)
+      · simp [hb]
+      · rw [if_neg hb] at hm ⊢; exact absurd hm hb
+  · cases h
+
+/-- non-vacuity: two writers whose blocks are committed by one fsync (the second enqueues before the loop takes the
+queue), and a third one that is told about a failed fsync -/
+def fwTrace : List SV.FWr.Lbl :=
+  [.reserve 10 5, .reserve 15 3, .written 15 true, .written 10 true, .enqueue 15 1, .notify 15, .enqueue 10 2, .wake,
+   .take 2, .syncBegin, .reserve 18 4, .written 18 true, .enqueue 18 1, .syncEnd true, .ret 10 true, .notify 18, .wake,
+   .take 1, .ret 15 true, .syncBegin, .syncEnd false, .ret 18 false]
+
+example : (SV.FWr.exec (SV.FWr.init 10) fwTrace).isSome = true := by decide
+/-- returning before the fsync ended, or enqueueing before the write completed, is not a path -/
+example : SV.FWr.firstBad (SV.FWr.init 0) [.reserve 0 5, .written 0 true, .enqueue 0 1, .notify 0, .wake, .take 1, .syncBegin, .ret 0 true] 0 = some 7 := by
+  decide
+example : SV.FWr.firstBad (SV.FWr.init 0) [.reserve 0 5, .enqueue 0 1] 0 = some 1 := by decide
 
 /-! ## Parsing facts used by the history theorems, at full generality -/
 
